@@ -89,6 +89,20 @@ def _chunk(seed, lo, hi, extra):
                 main.diff_trees(le, re_, diff_options=opts, formatter=fcls())
                 if ser(le) != sl or ser(re_) != sr:
                     fail(f"C06/diff-modified-input-tree/{fcls.__name__}")
+            # ... also when the caller hands in _ElementTree objects (copy.copy of a tree object shares its root)
+            from lxml import etree as _et0
+
+            lt, rt = _et0.ElementTree(xt.to_lxml(L)), _et0.ElementTree(xt.to_lxml(R))
+            slt, srt = ser(lt.getroot()), ser(rt.getroot())
+            for fcls in (None, formatting.DiffFormatter, formatting.XmlDiffFormatter):
+                fname = fcls.__name__ if fcls else "no-formatter"
+                first = main.diff_trees(lt, rt, diff_options=opts, formatter=fcls() if fcls else None)
+                if ser(lt.getroot()) != slt or ser(rt.getroot()) != srt:
+                    fail("C06/diff-modified-input-tree/element-tree-objects/" + fname)
+                    break
+                if main.diff_trees(lt, rt, diff_options=opts, formatter=fcls() if fcls else None) != first:
+                    fail("C06/repeated-call-differs/element-tree-objects/" + fname)
+                    break
             # (b) a Differ with history
             d = diff.Differ(**opts)
             hist = []
@@ -243,6 +257,35 @@ def _chunk(seed, lo, hi, extra):
                         fail("C06/default-unique-attribute-lost-after-earlier-call", script=repr(after)[:400])
                 except Exception as e:  # noqa
                     fail(f"C06/options-history-raises/{real.exc_sig(e)}")
+                # (d3) one XMLFormatter across pairs that bind one prefix to different URIs (declared on the left root or
+                # introduced by the right root): the second output must be what a fresh formatter gives
+                rz = core.rng_for(seed, "U12nsfmt2", idx)
+                zp = rz.choice(["n", "p", "meta"])
+                zu1, zu2 = "urn:verif:parts:v1", "urn:verif:parts:v2"
+
+                def zpair(uri, on_left):
+                    decl = ' xmlns:%s="%s"' % (zp, uri)
+                    if on_left:
+                        l_ = "<doc%s><%s:item>one</%s:item><%s:item>two</%s:item></doc>" % ((decl,) + (zp,) * 4)
+                        r_ = "<doc%s><%s:item>one</%s:item><%s:item>two changed</%s:item><%s:item>three</%s:item></doc>" % ((decl,) + (zp,) * 6)
+                    else:
+                        l_ = "<doc><a>one</a></doc>"
+                        r_ = "<doc%s><a>one</a><%s:item>two<%s:sub/></%s:item></doc>" % (decl, zp, zp, zp)
+                    return l_, r_
+
+                (zl1, zr1), (zl2, zr2) = zpair(zu1, rz.random() < 0.5), zpair(zu2, rz.random() < 0.5)
+                for kw in ({}, {"pretty_print": False}, {"use_replace": True}):
+                    try:
+                        want_z = main.diff_texts(zl2, zr2, formatter=formatting.XMLFormatter(**kw))
+                        fz = formatting.XMLFormatter(**kw)
+                        main.diff_texts(zl1, zr1, formatter=fz)
+                        got_z = main.diff_texts(zl2, zr2, formatter=fz)
+                        if got_z != want_z:
+                            fail("C06/formatter-with-history-differs/XMLFormatter/prefix-rebound", first_pair=[zl1, zr1], second_pair=[zl2, zr2], formatter_options=repr(kw))
+                            break
+                    except Exception as e:  # noqa
+                        fail("C06/formatter-namespace-history-raises/" + real.exc_sig(e), first_pair=[zl1, zr1], second_pair=[zl2, zr2], formatter_options=repr(kw))
+                        break
                 # (d'') one Patcher across namespaced pairs that bind one prefix to different URIs: an earlier document (or an
                 # earlier InsertNamespace) binds the prefix to one URI, the observed script binds it to another
                 rq = core.rng_for(seed, "U12nspatch", idx)
